@@ -32,8 +32,8 @@ ASSUMPTIONS = [
     "dash, non-ASCII sharp, newline)",
 ]
 
-MAL_ALPHABET_QUICK = "CBHcb#x 1-\n"
-MAL_ALPHABET_THOROUGH = "CBHcb#x 1-♯\n\t"
+MAL_ALPHABET_QUICK = "CBHcb#x 1-\n|"
+MAL_ALPHABET_THOROUGH = "CBHcb#x 1-♯\n\t|^]"
 DEFAULT = "<default>"
 STYLES_OK = ["#", "b", DEFAULT]
 STYLES_BAD = ["x", "", None, "##", "bb", "B", "♯", "sharp", "flat", " #", "#b", 1, 0]
